@@ -133,6 +133,20 @@ fn shrink_keeps_prefix() {
     kani::cover!(m < P);
 }
 
+/// a batch larger than the capacity: the best of the batch must still end up first (capacity 1, batch of 2, no dedup;
+/// constant shape so that the obligation stays cheap whatever adapters the batch goes through)
+#[kani::proof]
+#[kani::unwind(8)]
+fn add_all_batch_exceeding_capacity_keeps_the_best() {
+    let batch: [Sol; 2] = core::array::from_fn(|i| Sol { id: i as u8, key: kani::any() });
+    let mut e = Elitism::new_with_dedup(Arc::new(Obj), Arc::new(Rnd), 1, 2, Box::new(|_, _: &Sol, _: &Sol| false));
+    let improved = e.add_all(batch.to_vec());
+    assert!(e.individuals.len() == 1, "post_size_within_max");
+    assert!(e.individuals[0].key <= batch[0].key && e.individuals[0].key <= batch[1].key, "post_head_not_worse_than_any_offered");
+    assert!(improved, "post_reports_improvement");
+    kani::cover!(batch[1].key < batch[0].key);
+}
+
 /// empty batch is a no-op
 #[kani::proof]
 #[kani::unwind(8)]
